@@ -104,12 +104,17 @@ def evaluate(shape, kinds_it, star, path, env):
         lr, lm = evaluate(shape[0], kinds_it, star, path + (0,), env)
         rr, rm = evaluate(shape[1], kinds_it, star, path + (1,), env)
         opnd = f"{'leaf' if lm[2] else 'composite'}+{'leaf' if rm[2] else 'composite'}"
+        before = [list(getattr(o, "moves", [])) for o in (lr, rr)]
         try:
             real = lr + rr
         except Exception as e:  # noqa: BLE001
             raise Mismatch(f"add/{opnd}/exception:{type(e).__name__}", f"+ raised {type(e).__name__}: {e}") from e
         model = (lm[0] + rm[0], lm[1] + rm[1], False)
         compare(real, model, f"add/{opnd}", env)
+        for o, b in zip((lr, rr), before):
+            now = list(getattr(o, "moves", []))
+            if len(now) != len(b) or any(x is not y for x, y in zip(now, b)) or (hasattr(o, "moves") and getattr(real, "moves", None) is o.moves):
+                raise Mismatch(f"add/{opnd}/operand-modified-or-aliased", "an operand of + was changed by the addition (or shares its element list with the result)")
     if star and star[0] == path:
         n = star[1]
         opnd = "leaf" if model[2] else "composite"
@@ -268,12 +273,17 @@ def task_ops(arg):
             lr, lf, ll = ev(shape[0], it, star, path + (0,))
             rr, rf, rl = ev(shape[1], it, star, path + (1,))
             w = f"add/{'leaf' if ll else 'composite'}+{'leaf' if rl else 'composite'}"
+            before = [list(getattr(o, "operations", [])) for o in (lr, rr)]
             try:
                 real = lr + rr
             except Exception as e:  # noqa: BLE001
                 raise Mismatch(f"{w}/exception:{type(e).__name__}", str(e)) from e
             flat, leaf = lf + rf, False
             chk(real, flat, w)
+            for o, b in zip((lr, rr), before):
+                now = list(getattr(o, "operations", []))
+                if len(now) != len(b) or any(x is not y for x, y in zip(now, b)) or (hasattr(o, "operations") and real.operations is o.operations):
+                    raise Mismatch(f"{w}/operand-modified-or-aliased", "an operand of + was changed by the addition (or shares its element list with the result)")
         if star and star[0] == path:
             w = f"mul/{'leaf' if leaf else 'composite'}"
             try:
